@@ -46,6 +46,7 @@ type ColSpec struct {
 	Width int16  `json:"width,omitempty"`
 	Table int32  `json:"table,omitempty"`
 	Attr  int16  `json:"attr,omitempty"`
+	Mod   int32  `json:"mod,omitempty"` // type modifier the handler declares (varchar(n): n+4)
 }
 
 // Op is one scripted action of a statement function. Every op records what it
@@ -161,6 +162,17 @@ type Val struct {
 	FB uint64 `json:"fb,omitempty"` // float64 bits
 	S  string `json:"s,omitempty"`
 	B  []byte `json:"b,omitempty"`
+	// Z (timestamptz values): the zone offset in seconds of the time.Time the
+	// handler holds (the instant is I either way)
+	Z int32 `json:"z,omitempty"`
+}
+
+// inZone puts a timestamptz value into the zone its holder uses.
+func (v Val) inZone(t time.Time) time.Time {
+	if v.Z != 0 {
+		return t.In(time.FixedZone("", int(v.Z)))
+	}
+	return t
 }
 
 func (v Val) String() string {
@@ -235,7 +247,7 @@ func basicGo(g string, v Val) (any, bool) {
 	case "date":
 		return pgEpoch.AddDate(0, 0, int(v.I)), true
 	case "time":
-		return microsTime(v.I), true
+		return v.inZone(microsTime(v.I)), true
 	}
 	return nil, false
 }
@@ -327,7 +339,7 @@ func pgStruct(name string, v Val, valid bool) any {
 	case "Timestamp":
 		return pgtype.Timestamp{Time: microsTime(v.I), Valid: valid}
 	case "Timestamptz":
-		return pgtype.Timestamptz{Time: microsTime(v.I), Valid: valid}
+		return pgtype.Timestamptz{Time: v.inZone(microsTime(v.I)), Valid: valid}
 	}
 	panic("pgStruct " + name)
 }
@@ -439,6 +451,9 @@ func CanonOfGo(x any) (pgwire.Value, bool) {
 	case time.Time:
 		// date and timestamp share time.Time; callers fix the kind by OID
 		return pgwire.Value{Kind: "ts", I: timeMicros(t)}, true
+	case pgtype.InfinityModifier:
+		// date / timestamp 'infinity' and '-infinity'
+		return pgwire.Value{Kind: "infinity", I: int64(t)}, true
 	}
 	return pgwire.Value{}, false
 }
@@ -452,7 +467,7 @@ func (rt *Runtime) columns(cs []ColSpec) wire.Columns {
 	}
 	out := make(wire.Columns, len(cs))
 	for i, c := range cs {
-		out[i] = wire.Column{Table: c.Table, Name: c.Name, Oid: oid.Oid(c.OID), Width: c.Width, AttrNo: c.Attr}
+		out[i] = wire.Column{Table: c.Table, Name: c.Name, Oid: oid.Oid(c.OID), Width: c.Width, AttrNo: c.Attr, TypeModifier: c.Mod}
 	}
 	return out
 }
